@@ -2,6 +2,7 @@ package h
 
 import (
 	"bytes"
+	"compress/gzip"
 	"crypto"
 	"crypto/x509"
 	"fmt"
@@ -14,6 +15,7 @@ import (
 
 	"github.com/ProtonMail/go-crypto/openpgp"
 
+	"github.com/golang/snappy"
 	"github.com/sassoftware/relic/v8/config"
 	"github.com/sassoftware/relic/v8/lib/audit"
 	"github.com/sassoftware/relic/v8/lib/certloader"
@@ -98,7 +100,23 @@ func genSignCase(t *core.Tape, uniq string, mods []string) *signCase {
 		c.PGP = true
 		c.File = "doc" + uniq + ".txt"
 		c.Input = []byte("document " + uniq + "\n" + strings.Repeat("line\n", t.Choose(200, "pgp-lines")))
-		if t.Chance(1, 4, "pgp-long-line") {
+		if t.Chance(1, 6, "pgp-compressed-document") {
+			// a document that is itself a gzip file or a framed snappy stream (a
+			// tarball, a log): bytes that look like a compressed *upload* must be
+			// signed as they are whatever the transport negotiates
+			var zb bytes.Buffer
+			if t.Chance(1, 2, "pgp-document-snappy") {
+				sw := snappy.NewBufferedWriter(&zb)
+				sw.Write(c.Input)
+				sw.Close()
+			} else {
+				gw := gzip.NewWriter(&zb)
+				gw.Write(c.Input)
+				gw.Close()
+			}
+			c.Input = zb.Bytes()
+			c.File = "doc" + uniq + ".gz"
+		} else if t.Chance(1, 4, "pgp-long-line") {
 			// a line longer than the usual line buffers (but below the 64 KiB
 			// limit of the scanner the clear-sign helpers use)
 			n := core.Pick(t, "pgp-long-line-len", 4097, 6000, 30000, 65000)
